@@ -21,6 +21,7 @@ RULE = (
     "are enumerated with a fixed attribute pattern. Non-trivial = tree of height >= 2 with an inner node carrying >= 2 attributes and "
     "at least one non-default option (or, for dictionary cases, a nested dictionary with >= 3 nodes and an empty 'children' list)."
     ' Also: user keys that look like private mixin names, positional constructor arguments, memoising childiter, auto-vivifying dictionaries, re-entrant and aborted exports.'
+    ' Also: maxlevels that are not whole numbers (literal reading).'
 )
 ASSUMPTIONS = [
     "reference serialiser reads vars(node) minus the two bookkeeping keys and applies attriter/childiter/dictcls/maxlevel itself",
